@@ -25,6 +25,7 @@ class Scenarios:
             raise MachineryError("generated schema document is not rule-abiding")
         self.items = []
         self.packages = {}
+        self.proj_recs = None      # records extended with importable types, for projecting real trees
 
     def add(self, sid, files, main="d/main.conf", opts=(), meta=None, twin=None):
         """files: {relative path: [line, ...]}; sid is 0-based; twin: index of a
@@ -99,7 +100,7 @@ class Scenarios:
                  "KeyTab == " + tlc.tla_value(keytab),
                  "ConvTab == " + tlc.tla_value(convtab),
                  "MCPackages == " + (tlc.tla_value(self.packages) if self.packages else '("~none~" :> [ok |-> FALSE])')]
-        return loadgen.mc_module("MC_ZLoadS", "\n\n".join(parts))
+        return loadgen.mc_module("MC_ZLoadEnv", "\n\n".join(parts))
 
     OVERRIDES = {"KeyConvOf": "MCKeyConvOf", "ConvOf": "MCConvOf", "SecConvOf": "MCSecConvOf",
                  "ResLines": "MCResLines", "Resolve": "MCResolve", "Package": "MCPackage",
@@ -123,8 +124,8 @@ class Scenarios:
             def on_value(v):
                 out[v["scn"] - 1] = v
 
-            r = tlc.run(self.module(extra_values), cfg, on_value=on_value, workers=workers, timeout=timeout,
-                        env={"TRACE_FILE": path})
+            r = tlc.run("MC_ZLoadS", cfg, on_value=on_value, workers=workers, timeout=timeout,
+                        env={"TRACE_FILE": path}, extra_files={"MC_ZLoadEnv.tla": self.module(extra_values)})
         finally:
             shutil.rmtree(d, ignore_errors=True)
         chk.add_tlc(r)
@@ -214,9 +215,10 @@ def _replay_chunk(idxs):
         for i in idxs:
             item = sc.items[i]
             sch = loadgen.real_schema(sc.docs[item["sid"]], sc.recs[item["sid"]])
-            d = fn(ws, sch, sc.recs[item["sid"]], item, outs[i])
+            prec = (sc.proj_recs or sc.recs)[item["sid"]]
+            d = fn(ws, sch, prec, item, outs[i])
             if d is not None and not d.get("_count_only"):
-                d2 = fn(ws, sch, sc.recs[item["sid"]], item, outs[i])
+                d2 = fn(ws, sch, prec, item, outs[i])
                 d["_reproduced"] = d2 is not None
                 d.setdefault("direction", "G")
                 d.setdefault("scenario", {"schema_xml": schemas.to_xml(sc.docs[item["sid"]]),
@@ -224,7 +226,7 @@ def _replay_chunk(idxs):
                 d.setdefault("spec", outs[i]["o"])
                 bad.append(d)
             elif d is not None:
-                got, _ = run_real(ws, sch, sc.recs[item["sid"]], item)
+                got, _ = run_real(ws, sch, prec, item)
                 other.append({"files": item["files"], "opts": item["opts"], "spec": outs[i]["o"], "observed": got,
                               "schema_xml": schemas.to_xml(sc.docs[item["sid"]])})
             if item["meta"].get("nontrivial", True):
@@ -251,3 +253,62 @@ def replay_all(chk, sc, outs, fn, procs=12, chunk=200):
                 if not d.pop("_reproduced"):
                     raise MachineryError("disagreement not reproducible: %r" % (d,))
                 chk.disagree(d)
+
+
+# -- sessions (C12, C13) ------------------------------------------------------------------
+def session_digest(schema):
+    d = project.digest_schema(schema)
+    impl = []
+
+    def strip(t):
+        if t.get("abstract"):
+            return {"abstract": True}
+        return t
+    for n, t in sorted(d["types"].items()):
+        if t.get("abstract"):
+            impl.append([n, list(t["impl"])])
+    rest = {"top": d["top"], "types": {n: strip(t) for n, t in sorted(d["types"].items())}}
+    return {"rest": json.dumps(rest, sort_keys=True), "impl": impl or [["~none~", []]]}
+
+
+def logged_outcome(got_spec_tree, got):
+    if got["r"] == "ok":
+        return {"r": "ok", "kind": "", "tree": got_spec_tree}
+    return {"r": "err", "kind": got["kind"], "tree": {"type": "", "name": "", "attrs": []}}
+
+
+def validate_sessions(chk, sc, sessions, describe, timeout=3000):
+    """sessions: [{"sid", "digest0", "steps": [{"op", "scn", "out", "digest"}], ...}] recorded from the real code."""
+    d = tlc.mkscratch("zcv-sess-")
+    path = os.path.join(d, "scn.json")
+    verdicts = {}
+    try:
+        doc = sc.to_json()
+        doc["sessions"] = [{k: v for k, v in s.items() if not k.startswith("_")} for s in sessions]
+        with open(path, "w") as f:
+            json.dump(doc, f)
+        ov = {k: v for k, v in sc.OVERRIDES.items() if k in ("KeyConvOf", "ConvOf", "SecConvOf", "ResLines", "Resolve",
+                                                             "Package", "ExtSpace")}
+        cfg = flow.cfg_text(constants={"NSess": len(sessions)}, overrides=ov, invariants=["Verdict"])
+
+        def on_value(v):
+            verdicts[v["tid"]] = v
+        r = tlc.run("MC_ZSession", cfg, on_value=on_value, workers=6, timeout=timeout,
+                    env={"TRACE_FILE": path}, extra_files={"MC_ZLoadEnv.tla": sc.module()})
+    finally:
+        shutil.rmtree(d, ignore_errors=True)
+    chk.add_tlc(r)
+    if r.violation:
+        raise MachineryError("TLC reported %s while validating sessions\n%s" % (r.violation, r.error_text[:3000]))
+    for i, s in enumerate(sessions, 1):
+        chk.evaluations += 1
+        chk.traces += 1
+        chk.nontrivial_count += 1
+        v = verdicts.get(i)
+        clause = v["clause"] if v else "no-behaviour-of-the-specification-matches"
+        if clause != "accepted":
+            det = describe(s, clause, v)
+            det.setdefault("direction", "V")
+            det.setdefault("clause", clause)
+            chk.disagree(det)
+    return verdicts
